@@ -22,6 +22,8 @@ pub enum Input {
     /// n sibling / nested elements so that the shared identifier counter passes reserved words
     SizeRamp { n: u32, nested: bool, with_binding: bool },
     Raw(String),
+    /// many deep expressions as attribute bindings (operator adjacency in the emitted JS: `- -a`, `+ +a`, `a- -b*c` ...)
+    Exprs { exprs: Vec<crate::model::expr::Expr>, style: u64 },
 }
 
 #[derive(Clone, Debug, Serialize, Deserialize)]
@@ -98,6 +100,12 @@ pub fn sources(c: &Case) -> (Vec<(String, String)>, Vec<(String, String)>) {
             (vec![(entry, s)], vec![])
         }
         Input::Raw(t) => (vec![(entry, t.clone())], vec![("lib/s".into(), "module.exports = {} // c".into())]),
+        Input::Exprs { exprs, style } => {
+            let case = super::c03::Case { exprs: exprs.clone(), envs: vec![], style: *style, deliver: 0 };
+            let g = super::c03::build_group(&case);
+            let src = crate::compile::print_group(&g, *style);
+            (vec![(entry, src[0].1.clone())], vec![])
+        }
     }
 }
 
@@ -164,6 +172,7 @@ impl PropCheck for C02 {
             8 => (gen::wxml::group(&wc), any::<u64>(), prop_oneof![3 => Just(vec![]), 1 => proptest::collection::vec(soup::mutation(), 1..4)], proptest::collection::vec((any::<u8>(), any::<u8>()), 0..4))
                 .prop_map(|(group, style, mutations, adversarial)| Input::Group { group, style, mutations, adversarial }),
             1 => soup::soup(soup::WXML_ALPHABET, 80).prop_map(Input::Raw),
+            3 => (proptest::collection::vec(gen::expr::expr(&gen::expr::ExprCfg::new(4)), 1..16), any::<u64>()).prop_map(|(exprs, style)| Input::Exprs { exprs, style }),
         ];
         (input, any::<u8>(), any::<bool>(), any::<u8>()).prop_map(|(input, path, dev, extra)| Case { input, path, dev, extra }).boxed()
     }
@@ -200,6 +209,7 @@ pub fn eval_case(w: &mut Worker, c: &Case) -> Result<Outcome, String> {
         }
         Input::SizeRamp { n, .. } => out.labels.push(format!("size-ramp:{}", n)),
         Input::Raw(_) => out.labels.push("input:soup".into()),
+        Input::Exprs { .. } => out.labels.push("input:deep-expressions".into()),
     }
     out.labels.push(if c.dev { "dev-mode".into() } else { "non-dev".into() });
     out.labels.push(format!("entry-path:{}", c.path as usize % ENTRY_PATHS.len()));
@@ -225,7 +235,7 @@ pub fn eval_case(w: &mut Worker, c: &Case) -> Result<Outcome, String> {
             }
         }
     }
-    if entry_src.contains("{{") && (entry_src.contains("wx:") || entry_src.contains("<wxs") || entry_src.contains("<template") || entry_src.contains("<slot") || entry_src.contains("<include")) {
+    if matches!(c.input, Input::Exprs { .. }) || entry_src.contains("{{") && (entry_src.contains("wx:") || entry_src.contains("<wxs") || entry_src.contains("<template") || entry_src.contains("<slot") || entry_src.contains("<include")) {
         out.nt.push(fnv64(entry_src.as_bytes()));
     }
     out.sample = Some(json!({"entry_path": src.last().unwrap().0, "source": crate::util::truncate(entry_src, 300)}));
@@ -265,6 +275,14 @@ pub fn run(tier: Tier, seed: u64, findings: &Findings) -> i32 {
         }
     }
     report.merge(engine::run_explicit(&check, &cfg, ramps, 1, 8, findings));
+    // every operator-pair / adjacency-triple text of C03's enumeration, as artefact-validity input
+    let texts = super::c03::pair_texts();
+    let pair_cases: Vec<Case> = texts
+        .chunks(40)
+        .map(|ch| Case { input: Input::Exprs { exprs: ch.iter().map(|(s, j)| crate::model::expr::Expr::Raw { src: s.clone(), js: j.clone() }).collect(), style: 0 }, path: 0, dev: false, extra: 0 })
+        .collect();
+    report.extra.insert("operator_texts".into(), json!(texts.len()));
+    report.merge(engine::run_explicit(&check, &cfg, pair_cases, 4, 16, findings));
     let cases = tier.pick(3000, 150_000);
     report.merge(engine::run_generated(&check, &cfg, cases, 4, 16, findings, 0));
     engine::finish(
